@@ -15,7 +15,6 @@ ASSUMPTIONS = [
     "object documents have distinct keys",
     "validators are pure functions of (value, loaded)",
     "the std::map of errors is observed through its iteration order (sorted by path); the model keeps first-insertion order and the drivers sort",
-    "MsgPack documents contain no array element that is skipped without an exception (F12, property C05)",
     "the state of the target object after an early ValidationException (maxValidationErrors > 0) is not modelled",
 ]
 
